@@ -20,7 +20,7 @@ import (
 func TestMain(m *testing.M) {
 	ev.SetMeta(ev.Meta{
 		Property: "C12", Level: "exploration",
-		Rule: "rapid draws a source trie (0..20 keys over prefix-sharing 32-byte keys; root shape forced across branch / shared-prefix short node / single entry / empty; in memory, committed at a drawn collapse level, or reloaded from storage), a requested key set of size 0..25 (present keys, absent keys diverging at every depth, duplicates; both sides of the >10 parallel-collection threshold), and a follow-up sequence of updates, deletes and inserts restricted to requested keys, mirrored on the source and on the trie rebuilt from the export. " +
+		Rule: "rapid draws a source trie (0..20 keys over prefix-sharing 32-byte keys; root shape forced across branch / shared-prefix short node / single entry / empty; in memory, committed at a drawn collapse level, reloaded from storage, or re-created from CopyRoot(level) over the same storage), a requested key set of size 0..25 (present keys, absent keys diverging at every depth, duplicates; both sides of the >10 parallel-collection threshold), and a follow-up sequence of updates, deletes and inserts restricted to requested keys, mirrored on the source and on the trie rebuilt from the export. " +
 			"Oracle: Deserialize(GetPath(keys)) succeeds on a fresh storage-less trie; Root()/Weight() equal the source's and the independent reference's; after each mirrored operation both tries report the same success/failure and equal Root()/Weight(), which equal the reference for the updated model. " +
 			"A separate large case exports every key of a 68 000-key trie (more than 2^17 exported nodes), 3000 and 9 keys of it, imports each and mirrors an update. The source is sometimes taken through further value updates after its hashes were computed. Non-trivial = >=11 requested keys on a non-branch root, or a delete of a requested key whose sibling was exported as an embedded short node or a hash reference, or an absent requested key inserted later; distinct = distinct (content, request, follow-ups).",
 		Assumptions: []string{"the source is exported only in a clean state (GetPath reads hashes, which clears dirty flags)", "storage is internal/memkv"},
@@ -71,7 +71,7 @@ func run(rt *rapid.T) {
 			}
 		}
 	}
-	mode := gen.Pick(rt, []string{"memory", "committed", "committed", "reloaded"}, "mode")
+	mode := gen.Pick(rt, []string{"memory", "committed", "committed", "reloaded", "copied-root"}, "mode")
 	var db *memkv.Store
 	if mode != "memory" {
 		db = memkv.New()
@@ -105,6 +105,12 @@ func run(rt *rapid.T) {
 	if mode != "memory" {
 		if mode == "reloaded" {
 			src.Reload()
+		}
+		if mode == "copied-root" {
+			// the other way to a collapsed source: a copy of the root that keeps the top levels and refers to the rest by hash
+			cl := gen.Uniform(rt, 0, 4, "copylevel")
+			src.Logf("source = New(CopyRoot(%d), storage)", cl)
+			src.T = wmpt.New(src.T.CopyRoot(cl), db)
 		}
 	}
 	// request
